@@ -235,3 +235,95 @@ func eachSequence(n, maxLen int, fn func(seq []int)) {
 	}
 	rec(make([]int, 0, maxLen))
 }
+
+// ---------------------------------------------------------------------------
+// records: what a caller that parses a stream does - several framed records
+// nonce | tag | ciphertext sit back to back in ONE buffer, each argument is a
+// plain sub-slice b[i:j] of it (so the bytes behind a ciphertext, within its
+// capacity, are the next record). Every valid record must decrypt to its
+// plaintext whatever was decrypted before it; likewise two plaintexts stored
+// back to back must each encrypt to what the reference gives.
+
+var recordOrders = [][]int{{0, 1}, {1, 0}, {0, 0}, {1, 1}}
+
+func recordLens(a *algInfo) []int {
+	switch a.Ref.Class {
+	case cryptoref.KW:
+		return []int{16, 24}
+	case cryptoref.CBCNoPad:
+		return []int{16, 32}
+	}
+	return []int{0, 1, 17, 32}
+}
+
+func (e *env) evalRecords(c Case) []finding {
+	a := algByName[c.Alg]
+	k := e.octBySize[a.Ref.KeyLen]
+	ad := aads[2]
+	type rec struct{ nonce, tag, ct, pt []byte }
+	// the reference builds two records (different plaintexts and nonces)
+	var refs [2]rec
+	for i := range refs {
+		p := clone(ptMaster[40*i : 40*i+c.PT])
+		n := clone(nonceMaster[i : i+a.Ref.NonceLen])
+		ct, tag, err := cryptoref.Encrypt(a.Ref, k.Octets, n, p, ad)
+		if err != nil {
+			return []finding{{"machinery/reference-encrypt-failed", err.Error()}}
+		}
+		refs[i] = rec{n, tag, ct, p}
+	}
+	var s sink
+	order := recordOrders[c.Dst]
+	if c.Raw {
+		// plaintexts back to back: pt0 | pt1 | 64 filler bytes
+		buf := append(append(clone(refs[0].pt), refs[1].pt...), tagExt[:40]...)
+		view := func(i int) []byte { o := i * len(refs[0].pt); return buf[o : o+len(refs[i].pt)] }
+		for _, entry := range []string{"EncryptSymmetric", "Encrypt"} {
+			copy(buf, append(clone(refs[0].pt), refs[1].pt...))
+			for step, i := range order {
+				o := kitEncrypt(entry, view(i), a.Name, k.JWK, refs[i].nonce, ad)
+				e.st[stSequence]++
+				if o.pan != nil || o.err != nil || !bytes.Equal(o.a, refs[i].ct) || !bytes.Equal(o.b, refs[i].tag) {
+					if errName(o.err) == "ErrUnsupportedAlgorithm" {
+						break // (listed-but-unsupported is reported by the product sections)
+					}
+					s.add(entry+"/"+a.class()+"/plaintext-in-shared-buffer-not-encrypted-correctly", "%s alg=%q: two %d-byte plaintexts back to back in one buffer, encrypted in the order %v; step %d (plaintext %d) gives %s, the reference gives (%s, %s)", entry, a.Name, c.PT, order, step+1, i, o, hx(refs[i].ct), hx(refs[i].tag))
+					break
+				}
+			}
+		}
+		return s.out
+	}
+	// records back to back: nonce0|tag0|ct0|nonce1|tag1|ct1|filler
+	var buf []byte
+	var off [2][3]int
+	for i, r := range refs {
+		off[i][0] = len(buf)
+		buf = append(buf, r.nonce...)
+		off[i][1] = len(buf)
+		buf = append(buf, r.tag...)
+		off[i][2] = len(buf)
+		buf = append(buf, r.ct...)
+	}
+	buf = append(buf, tagExt[:40]...)
+	pristine := clone(buf)
+	for _, entry := range []string{"DecryptSymmetric", "Decrypt"} {
+		copy(buf, pristine)
+		for step, i := range order {
+			r := refs[i]
+			n := buf[off[i][0] : off[i][0]+len(r.nonce)]
+			tag := buf[off[i][1] : off[i][1]+len(r.tag)]
+			ct := buf[off[i][2] : off[i][2]+len(r.ct)] // capacity runs on over whatever follows
+			o := kitDecrypt(entry, ct, a.Name, k.JWK, n, tag, ad)
+			e.st[stSequence]++
+			if o.pan != nil || o.err != nil || !bytes.Equal(o.a, r.pt) {
+				if errName(o.err) == "ErrUnsupportedAlgorithm" {
+					break
+				}
+				s.add(entry+"/"+a.class()+"/valid-record-in-shared-buffer-not-decrypted", "%s alg=%q: two records nonce|tag|ciphertext (plaintexts of %d bytes) back to back in one buffer, decrypted in the order %v; step %d (record %d) gives %s, want %s. The buffer now differs from what was received: %v", entry, a.Name, c.PT, order, step+1, i, o, hx(r.pt), !bytes.Equal(buf, pristine))
+				break
+			}
+		}
+	}
+	return s.out
+}
